@@ -181,6 +181,11 @@ def s5_outputs(ctx):
         ws = [w for w in heap_writes(p, 'equity_curve')]
         eq = ('sub', ('call', ('fn', 'SimulatedBroker.get_account_total_equity'), (A('self', 'broker'),), ()), ('str', 'master'))
         ok = p.outcome == 'fall' and len(ws) == 1 and ws[0].how == 'mut:append' and ws[0].value[2][1:] == (('tuple', (V('dt'), eq)),)
+        if not ok and p.outcome == 'fall' and len(ws) == 1 and ws[0].how == 'mut:append' and len(ws[0].value[2]) == 2:
+            # a named tuple (Date, Equity) is that pair
+            from ..symex import _seq_items
+            items = _seq_items(ws[0].value[2][1])
+            ok = items is not None and tuple(items) == (V('dt'), eq)
         ctx.require(ok, 'C14.S5', 'an equity point is (dt, account total equity), appended once', ws[0].site if ws else ctx.fn(qn).site(), [fmt(w.value)[:120] for w in ws],
                     key='C14.S5|equity-point')
     for w in writers_of_attr(ctx.M, 'equity_curve', owner='BacktestTradingSession'):
